@@ -282,8 +282,37 @@ class AggCase:
             else:
                 web["c"] = {"checked": jg("count-objects-checked"), "healthy": jg("count-objects-healthy"),
                             "unhealthy": jg("count-objects-unhealthy"), "unrec": -1, "ncorrupt": jg("count-corrupt-shares")}
+        # the documents of t=check / t=check&repair=true for every distributed object (the same functions render the stream units)
+        docs = []
+        hr_of = lambda cr: {"h": cr.get("results", {}).get("healthy") is True, "r": cr.get("results", {}).get("recoverable") is True,
+                            "nc": num(cr.get("results", {}).get("count-corrupt-shares", -1)),
+                            "listed": len(cr.get("results", {}).get("list-corrupt-shares", []))}
+        blank = {"h": True, "r": True, "nc": 0, "listed": 0}
+        for i, rec in enumerate(self.recs, 1):
+            if rec["lit"]:
+                continue
+            # webapi.rst: "Detailed check results for non-healthy files and directories will be available under
+            # /operations/$HANDLE/$STORAGEINDEX"
+            code, body = fetch(renderer, "/%s?output=JSON" % base32.b2a(self.si(i)).decode())
+            doc = {"i": i, "code": code, "lit": False, "si_ok": False, "att": False, "succ": False, "pre": dict(blank), "post": dict(blank)}
+            if code == 200:
+                j = json.loads(body)
+                doc["lit"] = j.get("storage-index") == ""
+                doc["si_ok"] = doc["lit"] or j.get("storage-index") == base32.b2a(self.si(i)).decode()
+                if self.repair:
+                    doc["att"] = j.get("repair-attempted") is True
+                    doc["succ"] = j.get("repair-successful") is True
+                    if not doc["lit"]:
+                        doc["pre"], doc["post"] = hr_of(j.get("pre-repair-results", {})), hr_of(j.get("post-repair-results", {}))
+                elif doc["lit"]:
+                    doc["pre"] = dict(blank, h=j.get("results", {}).get("healthy") is True)
+                    doc["post"] = dict(doc["pre"])
+                else:
+                    doc["pre"] = hr_of(j)
+                    doc["post"] = dict(doc["pre"])
+            docs.append(doc)
         L = [dict(r, path=[i]) for i, r in enumerate(self.recs, 1)]
-        return {"ev": "agg", "repair": self.repair, "L": L, "api": api, "web": web}
+        return {"ev": "agg", "repair": self.repair, "L": L, "api": api, "web": web, "docs": docs}
 
 
 TRIVIAL_GRAPH = {"type": {"o1": "dir"}, "kids": {"o1": []}, "root": "o1", "K": 2, "N": 3}
@@ -482,13 +511,15 @@ class World:
             a, b = IMMUTABLE_CONTAINER_HEADER + offs["data"], IMMUTABLE_CONTAINER_HEADER + offs["plaintext_hash_tree"]
         else:
             data = bytes(raw[MUTABLE_CONTAINER_HEADER:])
-            if data[0] == 0:          # SDMF
+            if data[0] == 0:          # SDMF: the block lies between the offsets share_data and enc_privkey
                 o_ = unpack_header(data)[-1]
                 a, b = MUTABLE_CONTAINER_HEADER + o_["share_data"], MUTABLE_CONTAINER_HEADER + o_["enc_privkey"]
-            else:                     # MDMF: the share data follow the fixed-size sections; skip the 16-byte salt of segment 0
-                from allmydata.mutable.layout import MDMFHEADERSIZE, PRIVATE_KEY_SIZE, SIGNATURE_SIZE, VERIFICATION_KEY_SIZE, SHARE_HASH_CHAIN_SIZE
-                a = MUTABLE_CONTAINER_HEADER + MDMFHEADERSIZE + PRIVATE_KEY_SIZE + SIGNATURE_SIZE + VERIFICATION_KEY_SIZE + SHARE_HASH_CHAIN_SIZE + 16
-                b = a + 4
+            else:                     # MDMF: offsets share_data / block_hash_tree of the header; the 16-byte salt of segment 0 is skipped
+                import struct
+                o_sd, o_bht = struct.unpack(">QQ", data[99:115])
+                a, b = MUTABLE_CONTAINER_HEADER + o_sd + 16, MUTABLE_CONTAINER_HEADER + min(o_bht, o_sd + 16 + 4)
+        if b <= a:
+            return          # an empty object has no block data: nothing a verifying check would have to read
         pos = self.rng.randrange(a, b)
         raw[pos] ^= 1 << self.rng.randrange(8)
         with open(p, "wb") as f:
@@ -582,7 +613,7 @@ class World:
         vis = []
         for path, cap in pairs:
             obj, lvl = self.obj_of_cap(cap)
-            vis.append({"path": self.path_int(path), "obj": obj, "lvl": lvl, "type": "", "vc": False, "rc": False, "si": False})
+            vis.append({"path": self.path_int(path), "obj": obj, "lvl": lvl, "type": "", "vc": False, "rc": False, "rck": "", "si": False})
         return vis
 
     def obs_manifest(self, via, route, handle):
@@ -624,8 +655,12 @@ class World:
                         e["stats"] = norm_stats(u.get("stats"))
                         continue
                     obj, lvl = self.obj_of_cap(u.get("cap", ""))
+                    rc = u.get("repaircap") or ""
+                    caps = self.caps.get(obj, {})
+                    rck = ("none" if not rc else "w" if caps.get("w") and rc.encode() == caps["w"] else
+                           "v" if rc == u.get("verifycap") else "r" if rc.encode() == caps.get("r") else "other")
                     e["vis"].append({"path": self.path_int(u.get("path", ["?"])), "obj": obj, "lvl": lvl, "type": u.get("type", ""),
-                                     "vc": bool(u.get("verifycap")), "rc": bool(u.get("repaircap")), "si": bool(u.get("storage-index"))})
+                                     "vc": bool(u.get("verifycap")), "rc": bool(rc), "rck": rck, "si": bool(u.get("storage-index"))})
             else:
                 raise ValueError(route)
         except Exception as ex:
